@@ -1508,6 +1508,13 @@ pub fn types_pairs_for(prop: &str, tier: Tier) -> Vec<crate::tyeng::Pair> {
 			.collect(),
 		"C15" => {
 			let mut v = crate::tyeng::families_c15(&subjects);
+			// "the constructors that skip the duplicate check require unsafe or owned
+			// inputs": so does every route that changes a checked member list afterwards
+			v.extend(crate::tyeng::families_mutation_after_check().into_iter().map(|mut p| {
+				p.prop = "C15".into();
+				p.family = "D9-checked-member-list-changed-from-safe-code".into();
+				p
+			}));
 			if tier == Tier::Quick {
 				// the scoped-closure escape (D3) depends on the signature of each
 				// scoped function separately: every API variant in both tiers
@@ -1679,7 +1686,7 @@ pub fn surface_pairs(ctx: &mut CheckCtx, prop: &str, pairs: &mut Vec<crate::tyen
 				ctx.extra.insert("api_surface_key_lending".into(), json!({"functions_seen": seen, "pairs_generated": lp.len(), "names": lp.iter().map(|p| p.name.clone()).collect::<Vec<_>>()}));
 				pairs.extend(lp);
 			}
-			if matches!(prop, "C14" | "C02" | "C01" | "C08") {
+			if matches!(prop, "C14" | "C02" | "C01" | "C08" | "C15") {
 				let (shape_pairs, seen) = crate::surface::families_surface_shapes(prop, &doc);
 				ctx.extra.insert("api_surface_shapes".into(), json!({"functions_seen": seen, "pairs_generated": shape_pairs.len(), "names": shape_pairs.iter().map(|p| p.name.clone()).collect::<Vec<_>>()}));
 				pairs.extend(shape_pairs);
